@@ -343,7 +343,7 @@ impl<S: BDDSymbol> BDDEnv<S> {
 
             self.ite(
                 Rc::clone(first),
-                self.cmp_count(&remainder, n - 1, cmp),
+                self.cmp_count(&remainder, n.saturating_sub(1), cmp),
                 self.cmp_count(&remainder, n, cmp),
             )
         }
